@@ -13,7 +13,7 @@ func DecodeHeader(headerString string) (reqSize int, tag string, err error) {
 	var sizeStr string
 	sizeStr, tag, _ = strings.Cut(headerString, " ")
 	reqSize, err = strconv.Atoi(sizeStr)
-	if err != nil {
+	if err != nil || reqSize < 0 {
 		return 0, "", fmt.Errorf("invalid payload size line `%s`. expect `%%d %%s`", headerString)
 	}
 	return reqSize, tag, err
